@@ -7,7 +7,7 @@ MODEL_NAME = "Dom/HydrateModel.v"
 HARNESS = "dom"
 HARNESS_ARGS = ["c05"]
 ALLOWED_AXIOMS = []
-READY = False
+READY = True
 RUN_IMPORT = "Dom.HydrateRun"
 
 RULE = ("view trees drawn from one PRNG (VERIF_SEED) over the grammar text (incl. empty, adjacent, needing "
